@@ -109,6 +109,16 @@ Check empty_eval_panics : forall (A : Arith) (p : list A) (x : A),
   (p <> [] -> pderiv_at p x (length p) = Panic Unwrap).
 Print Assumptions empty_eval_panics.
 
+(* eval / derivative / trim panic exactly on the empty polynomial (every arithmetic; + - * neg scale are total by type) *)
+Theorem poly_panics_exactly : forall (A : Arith) (p : list A) (x : A),
+  (p = [] -> peval p x = Panic Unwrap /\ pderiv p = Panic Unwrap /\ ptrim p = Panic Underflow) /\
+  (p <> [] -> (exists a, peval p x = Ok a) /\ (exists d, pderiv p = Ok d) /\ (exists t, ptrim p = Ok t)).
+Proof. intros A p x. exact (poly_panics_exactly_lemma p x). Qed.
+Check poly_panics_exactly : forall (A : Arith) (p : list A) (x : A),
+  (p = [] -> peval p x = Panic Unwrap /\ pderiv p = Panic Unwrap /\ ptrim p = Panic Underflow) /\
+  (p <> [] -> (exists a, peval p x = Ok a) /\ (exists d, pderiv p = Ok d) /\ (exists t, ptrim p = Ok t)).
+Print Assumptions poly_panics_exactly.
+
 (* ---------------------------------------------------------------- evaluation is a ring homomorphism *)
 Theorem peval_is_sum : forall (A : Arith), RingLaws A -> forall (p : list A) (x : A), p <> [] ->
   peval p x = Ok (sum_n (length p) (fun i => mul (nth i p zero) (rpow x i))).
